@@ -15,6 +15,9 @@
 (***************************************************************************)
 EXTENDS Naturals, Sequences, FiniteSets, TLC
 
+CONSTANTS AsFoundJoin,      \* TRUE reproduces F8a: a relative target is always joined to the parent of the inferred root
+          AsFoundOrder      \* TRUE reproduces F8b: the ancestor walk is tried before the bare root names
+
 VARIABLES ph, case, out
 vars == <<ph, case, out>>
 
@@ -63,6 +66,85 @@ Promised(c) ==
   \/ c.tsp = "cwdrel" /\ CwdAboveRoot(c) /\ c.rdes \in {"name", "rel"}
   \/ c.tsp = "cwdrel" /\ c.rdes = "none" /\ Len(c.cwd) < Len(FileDir(c))
 
+
+-----------------------------------------------------------------------------
+(* The root inference of DSDLDefinition.from_first_in / read_files, transcribed strategy by strategy over the abstract  *)
+(* file system (implementation-shaped; the declarative contract above is what it is checked against).               *)
+PlantsDir == Base \o <<"plants">>
+\* every directory of the abstract file system
+DirsFS(c) == { SubSeq(FileDir(c), 1, n) : n \in 0..Len(FileDir(c)) } \cup { SubSeq(PlantsDir, 1, n) : n \in 0..Len(PlantsDir) }
+             \cup { PlantsDir \o <<"trees">>, <<"other">> }
+FileName == <<"FILE">>                                    \* the file's own path component (its text is irrelevant here)
+FilePath(c) == FileDir(c) \o FileName
+ExistsFS(c, p) == p \in DirsFS(c) \/ p = FilePath(c)
+Sp(abs, parts) == [abs |-> abs, parts |-> parts]           \* a spelled path
+Res(c, p) == IF p.abs THEN p.parts ELSE c.cwd \o p.parts
+Parent(parts) == SubSeq(parts, 1, Len(parts) - 1)
+\* how the call spells the target and the roots
+TargetSp(c) == CASE c.tsp = "abs" -> Sp(TRUE, FilePath(c))
+                 [] c.tsp = "cwdrel" -> Sp(FALSE, SubSeq(FilePath(c), Len(c.cwd) + 1, Len(FilePath(c))))
+                 [] c.tsp = "rootrel" -> Sp(FALSE, SubSeq(FilePath(c), Len(RootDir), Len(FilePath(c))))
+MainRootSp(c) == CASE c.rdes = "abs" -> <<Sp(TRUE, RootDir)>>
+                   [] c.rdes = "rel" -> <<Sp(FALSE, SubSeq(RootDir, Len(c.cwd) + 1, Len(RootDir)))>>
+                   [] c.rdes = "name" -> <<Sp(FALSE, <<"animals">>)>>
+                   [] c.rdes = "none" -> <<>>
+RootsSp(c) == CASE c.extra = "before" -> <<Sp(TRUE, PlantsDir)>> \o MainRootSp(c)
+                [] c.extra = "after" -> MainRootSp(c) \o <<Sp(TRUE, PlantsDir)>>
+                [] OTHER -> MainRootSp(c)
+SpPrefix(r, t) == r.abs = t.abs /\ IsPrefix(r.parts, t.parts) /\ Len(r.parts) < Len(t.parts)
+
+NoRoot == [found |-> FALSE]
+Got(r) == [found |-> TRUE, root |-> r]
+FirstIx(S) == CHOOSE i \in S : \A j \in S : i <= j
+\* inference 1: no roots given
+Inf1(c, t) == IF t.abs THEN NoRoot
+              ELSE IF ExistsFS(c, c.cwd \o <<t.parts[1]>>) THEN Got(Sp(FALSE, <<t.parts[1]>>)) ELSE NoRoot
+\* inference 2: the target as spelled lies under a root as spelled (the first such root wins)
+Inf2(c, t, rs) == LET I == { i \in DOMAIN rs : SpPrefix(rs[i], t) } IN IF I = {} THEN NoRoot ELSE Got(rs[FirstIx(I)])
+\* bare root-namespace names: the first directory of the target path carrying such a name
+InfNames(c, t, rs) ==
+  LET names == { rs[i].parts[1] : i \in { j \in DOMAIN rs : ~rs[j].abs /\ Len(rs[j].parts) = 1 } }
+      I == { i \in 1..(Len(t.parts) - 1) : t.parts[i] \in names }
+  IN IF I = {} THEN NoRoot ELSE Got(Sp(t.abs, SubSeq(t.parts, 1, FirstIx(I))))
+\* ancestor walk: a relative target whose first component names a root or an ancestor of a root under which the file exists
+InfWalk(c, t, rs) ==
+  IF t.abs THEN NoRoot ELSE
+  LET Cands == { <<i, n>> \in (DOMAIN rs) \X (1..5) :
+                   /\ n <= Len(rs[i].parts)
+                   /\ rs[i].parts[n] = t.parts[1]
+                   /\ ExistsFS(c, Res(c, Sp(rs[i].abs, SubSeq(rs[i].parts, 1, n - 1))) \o t.parts) }
+  IN IF Cands = {} THEN NoRoot
+     ELSE LET i == FirstIx({ x[1] : x \in Cands })
+              n == CHOOSE m \in { x[2] : x \in { y \in Cands : y[1] = i } } : \A k \in { x[2] : x \in { y \in Cands : y[1] = i } } : m >= k
+          IN Got(Sp(rs[i].abs, SubSeq(rs[i].parts, 1, n)))          \* walking upwards from the root: the deepest match first
+Infer(c) ==
+  LET t == TargetSp(c) rs == RootsSp(c) IN
+  IF Len(rs) = 0 THEN Inf1(c, t)
+  ELSE IF Inf2(c, t, rs).found THEN Inf2(c, t, rs)
+  ELSE IF AsFoundOrder
+       THEN (IF InfWalk(c, t, rs).found THEN InfWalk(c, t, rs) ELSE InfNames(c, t, rs))
+       ELSE (IF InfNames(c, t, rs).found THEN InfNames(c, t, rs) ELSE InfWalk(c, t, rs))
+
+\* from_first_in + the constructor + the nested-root validation of read_files: "ide" or the resolved root directory
+Outcome(c) ==
+  LET t == TargetSp(c) inf == Infer(c) IN
+  IF ~inf.found THEN [k |-> "ide"]
+  ELSE
+    LET r == inf.root
+        file == IF t.abs THEN t.parts
+                ELSE IF ~AsFoundJoin /\ ~r.abs /\ IsPrefix(r.parts, t.parts) THEN c.cwd \o t.parts       \* relative to the working directory
+                ELSE Parent(Res(c, r)) \o t.parts                                                        \* relative to the root's parent
+        rootdir == Res(c, r)
+        given == { Res(c, RootsSp(c)[i]) : i \in { j \in DOMAIN RootsSp(c) : ExistsFS(c, Res(c, RootsSp(c)[j])) } }
+        all == given \cup {rootdir}
+    IN IF file # FilePath(c) THEN [k |-> "ide"]                                  \* no such file
+       ELSE IF ~IsPrefix(rootdir, FileDir(c)) THEN [k |-> "ide"]
+       ELSE IF \E a, b \in all : a # b /\ IsPrefix(a, b) THEN [k |-> "ide"]    \* nested root namespaces
+       ELSE [k |-> "ok", root |-> rootdir]
+\* the contract, on the model of the code
+NeverWrongIdentity == ph = 1 /\ case.api = "files" /\ Outcome(case).k = "ok" => Outcome(case).root = ExpectedRoot(case)
+PromisedSucceeds == ph = 1 /\ case.api = "files" /\ Promised(case) => Outcome(case).k = "ok"
+
 Init == ph = 0 /\ case = [depth |-> 0] /\ out = 0
 Pick ==
   /\ ph = 0
@@ -73,7 +155,8 @@ Pick ==
                  extra |-> extra, api |-> api] IN
          /\ Spellable(c)
          /\ case' = c
-         /\ out' = [identity |-> Identity(c, ExpectedRoot(c)), promised |-> Promised(c)]
+         /\ out' = [identity |-> Identity(c, ExpectedRoot(c)), promised |-> Promised(c),
+                    model |-> IF api = "files" THEN Outcome(c).k ELSE "ok"]
   /\ ph' = 1
 Spec == Init /\ [][Pick]_vars
 
